@@ -550,7 +550,11 @@ func vfC08ModelRelations(L int) {
 	verifReach("called")
 	verifAssert(err == nil, "no error")
 
-	switch nondetRange(0, 3) {
+	switch nondetRange(0, 4) {
+	case 4: // the two rows exchanged (the matrix of a row-permuted alignment holds d(j,i) where it held d(i,j))
+		sd, serr := m.Distance(s2, s1, w)
+		verifReach("swap")
+		verifAssert(serr == nil && vfC08SameXR(d, sd), "Distance does not depend on which of the two rows comes first")
 	case 0: // column permutation
 		p := vfC08PickPerm(L)
 		tm := vfC08Model(k, pi, vfC08PermBools(sel, p), gamma, alpha, gapmode, rmAmb)
@@ -604,7 +608,7 @@ func vfC08ModelRelations(L int) {
 	}
 }
 
-// H_C08_model_distance_relations: for JC, K2P, F81, F84, TN93 (plain and gamma) and pdist, the Distance of a column-permuted / 2-fold replicated / integer-weighted / unit-weighted / reverse-complemented pair equals the Distance of the original pair.
+// H_C08_model_distance_relations: for JC, K2P, F81, F84, TN93 (plain and gamma) and pdist, the Distance of a column-permuted / 2-fold replicated / integer-weighted / unit-weighted / reverse-complemented / row-exchanged pair equals the Distance of the original pair.
 // bounds: two encoded rows of L<=2 symbolic codes 0..15, symbolic selectedSites, weights nil or dyadic k/2 (k=1..8); frequencies (1/2,1/4,1/8,1/8) set in the model (exchanged for the reverse complement), gamma off / alpha=2; pdist with gap modes none/all and rm-ambiguous
 // outside: L>2 (thorough twin: 3), other frequencies and alpha, the internal-gap mode; IEEE rounding is outside the claim: floats are exact reals; ln/pow are uninterpreted (equal arguments give equal values)
 func H_C08_model_distance_relations() {
